@@ -57,6 +57,7 @@ type Result struct {
 	Mut     []MutJ   `json:"mut,omitempty"`   // header/data mutations of inputs
 	Alias   [][2]int `json:"alias,omitempty"` // (output k, input i) same object
 	Extra   any      `json:"extra,omitempty"`
+	Probed  bool     `json:"reuse_probed,omitempty"`
 	Reuse   []string `json:"reuse,omitempty"` // warm-ups after which a re-used operator instance answers differently
 }
 
